@@ -76,6 +76,22 @@ let () =
         out (Printf.sprintf "%d %d %s %s %s %d %s %d 0\n" (int_of_z r.rc) (int_of_z r.idn_rc) (flags r)
                (if extra then hex_opt r.lpart else "~") (if extra then hex_opt r.domain else "~")
                !calls (b01 !argok) (live_of r))
+      | "K" ->
+        let m = int_of_string f.(1) and tld = f.(2) = "1" and s = bytes_of_hex f.(3) in
+        calls := 0; argok := true;
+        let idn = mk_idn (dom_of s) (int_of_string f.(4)) (bytes_of_hex f.(5)) (f.(6) = "1") in
+        let r = email idn g table (mode_of_int m) tld s in
+        out (Printf.sprintf "%d %d %s\n" (int_of_z r.rc) (int_of_z r.idn_rc) (flags r))
+      | "G" ->   (* generator model: domain type manager-prefix -> table row / domains-file line *)
+        let d = bytes_of_hex f.(1) and t = bytes_of_hex f.(2) and mg = bytes_of_hex f.(3) in
+        (match gen_row ((d, t), mg) with
+         | Some ((n, l), ty) ->
+           let rec int_of_nat = function O -> 0 | S k -> 1 + int_of_nat k in
+           out (Printf.sprintf "%s %d %d" (hex_of_bytes n) (int_of_nat l) (int_of_z ty))
+         | None -> out "DIE");
+        (match gen_domain_line (d, t) with
+         | Some l -> out (" " ^ hex_of_bytes l ^ "\n")
+         | None -> out " DIE\n")
       | "J" ->
         let m = int_of_string f.(1) and mask = int_of_string f.(2) and tldc = f.(3) = "1" and rc = int_of_string f.(4) in
         let idn = (fun _ -> IdnErr (Z0, false)) in
